@@ -102,11 +102,11 @@ def gen_cases(tier, seed):
         for i in range(per):
             cases.append({"cls": cls, "rs": f"C05:{seed}:{cls}:{i}", "tier": tier})
     # constraints with length-based coverage < 1 (the safety options add their own constraints on top of the caller's)
-    for cls in ("kPathCover", "MinPathCover", "kLeastAbsErrors", "kMinPathError", "MinFlowDecomp"):
+    for cls in ("kPathCover", "kPathCover", "MinPathCover", "kLeastAbsErrors", "kMinPathError", "MinFlowDecomp"):
         for i in range(per // 2):
-            cases.append({"cls": cls, "rs": f"C05len:{seed}:{cls}:{i}", "tier": tier, "want": "covlen"})
+            cases.append({"cls": cls, "rs": f"C05len:{seed}:{cls}:{i}:{len(cases)}", "tier": tier, "want": "covlen"})
     # many small dense conserving flows, few settings each: flow-safe paths used as constraints must never change the minimum
-    for i in range(240 if tier == "quick" else 4000):
+    for i in range(100 if tier == "quick" else 2000):
         cases.append({"cls": "MinFlowDecomp", "rs": f"C05fs:{seed}:{i}", "tier": tier, "want": "flowsafe"})
     return cases
 
@@ -129,11 +129,36 @@ def run_case(case):
     if case.get("inst"):
         inst = copy.deepcopy(case["inst"])
     elif case.get("want") == "flowsafe":
-        nodes, edges = gen.dag_random(rng, n=rng.randint(5, 7), p=rng.choice([0.45, 0.6]))
-        if not (6 <= len(edges) <= 11):
-            return {"viol": [], "obs": {"c05.shape_skipped": 1}, "nontrivial": False}
-        flow, planted = gen.plant_paths(rng, nodes, edges, npaths=rng.randint(3, 5), maxw=5)
-        if any(f == 0 for f in flow.values()):
+        if rng.random() < 0.6:
+            # 'spine' family: a path v0..vk whose inner nodes each have one side entrance and one side exit; the exits leak exactly the
+            # flow of the first spine edge after j steps, so the window v0..v(j+1) has excess flow exactly 0 (the boundary of flow-safety)
+            kk = rng.randint(2, 4); f0 = rng.randint(2, 4)
+            cuts = sorted(rng.sample(range(1, f0), min(f0 - 1, rng.randint(1, kk - 1)))) if f0 > 1 else []
+            leaks = [b - a for a, b in zip([0] + cuts, cuts + [f0])]
+            leaks = (leaks + [rng.randint(1, 2) for _ in range(kk)])[:kk]
+            nodes = [f"v{i}" for i in range(kk + 2)]; edges = []; flow = {}
+            cur = f0; edges.append(("v0", "v1")); flow[("v0", "v1")] = cur
+            for i in range(1, kk + 1):
+                a_in = rng.randint(1, 3)
+                nodes += [f"s{i}", f"t{i}"]
+                edges += [(f"s{i}", f"v{i}"), (f"v{i}", f"t{i}")]; flow[(f"s{i}", f"v{i}")] = a_in; flow[(f"v{i}", f"t{i}")] = leaks[i - 1]
+                cur = cur + a_in - leaks[i - 1]
+                if cur <= 0:
+                    flow[(f"s{i}", f"v{i}")] += 1 - cur; cur = 1
+                edges.append((f"v{i}", f"v{i + 1}")); flow[(f"v{i}", f"v{i + 1}")] = cur
+            if rng.random() < 0.5:
+                rng.shuffle(edges)
+            planted = []
+        else:
+          for _ in range(12):
+            nodes, edges = gen.dag_random(rng, n=rng.randint(5, 7), p=rng.choice([0.45, 0.6]))
+            if not (6 <= len(edges) <= 11):
+                continue
+            # small weights: windows whose excess flow is exactly 0 (the boundary case of flow-safety) are then frequent
+            flow, planted = gen.plant_paths(rng, nodes, edges, npaths=rng.randint(3, 5), maxw=rng.choice([2, 3, 5]))
+            if all(f > 0 for f in flow.values()):
+                break
+          else:
             return {"viol": [], "obs": {"c05.shape_skipped": 1}, "nontrivial": False}
         wt = rng.choice(["int", "float"])
         inst = {"cls": cls, "spec": gen.spec(nodes, edges, eattr={e: {"flow": (float(f) if wt == "float" else f)} for e, f in flow.items()}), "kw": {"flow_attr": "flow", "weight_type": wt}}
@@ -145,6 +170,8 @@ def run_case(case):
         for _ in range(60):
             inst, meta = W.random_instance(rng, cls, small=True)
             if inst["kw"].get("subpath_constraints_coverage_length", 1.0) < 1:
+                if cls == "kPathCover" and rng.random() < 0.7:
+                    inst["kw"]["k"] = max(1, rng.choice([1, inst["kw"]["k"] - 1, inst["kw"]["k"] - 2]))     # possibly below the cover number: 'unsolved' must stay 'unsolved'
                 break
         else:
             return {"viol": [], "obs": {"c05.shape_skipped": 1}, "nontrivial": False}
